@@ -1,12 +1,12 @@
 """C10 — printed schemas are faithful: YANG and YIN output re-parse to the same module."""
 import os, re
-from checks import yangstrcomp, c10gen
+from checks import yangstrcomp, c10gen, yincomp
 from vlib import paths
 from vlib.proto import hexs, unhex
 
-LEAN_TARGETS = ["LyModel.Props.C10"]
+LEAN_TARGETS = ["LyModel.Props.C10", "LyModel.Props.C10Yin"]
 AUDIT = "Audit/C10.lean"
-GENERATED = ["YangStr"]
+GENERATED = ["YangStr", "YinArgs"]
 ASSUMPTIONS = [
     "DESIGN.md §5 C10: (P) string side proved on the model (ypr_encode/ypr_text/yprp_stmt vs read_qstring/get_argument/get_keyword/parse_ext_substmt); "
     "whole-module faithfulness (every statement printer, YIN printer/parser, compiled and tree printers) is (L): laws evaluated on the implementation",
@@ -14,7 +14,7 @@ ASSUMPTIONS = [
     "single-line ypr_text statements carry YANG keywords (where the lexer's column counter is exact); extension keywords over-count it",
     "api_schema runs with detect_leaks=0: a failed YIN parse leaks parsed statements (reported to the owner of F21)",
 ]
-TRUSTED = ["harness/wb_yang.c and harness/api_schema.c", "tools/extractors/yangstr.py (escape switches, is_yangutf8char ranges, keyword trie, constants)",
+TRUSTED = ["harness/wb_yang.c, harness/wb_yin.c and harness/api_schema.c", "tools/extractors/yin.py (lys_stmt_str/arg/flags, yin_parse_extension_instance_arg switch, yin_match_argument_name, xml.h character classes)", "tools/extractors/yangstr.py (escape switches, is_yangutf8char ranges, keyword trie, constants)",
            "classification predicates in tools/checks/c10.py and tools/checks/yangstrcomp.py"]
 
 API = "api_schema"
@@ -118,6 +118,8 @@ def explain_yin_parse(msgs, yin):
 def classify(component, what, case):
     if component == yangstrcomp.COMP:
         return yangstrcomp.classify(component, what, case)
+    if component == yincomp.COMP:
+        return yincomp.classify(component, what, case)
     if case.get("crash"):
         err = case.get("stderr", "")
         if "tro_ext_printer_tree" in err and "printer_tree.c" in err:
@@ -157,6 +159,7 @@ def recompute(case):
 
 def run(cx):
     yangstrcomp.run_strings(cx)
+    yincomp.run_yin(cx)
     run_modules(cx)
 
 
